@@ -133,7 +133,9 @@ Definition check_case (c : scase) : Z * option nat :=
   | None =>
     if negb (list_eqb (list_eqb Z.eqb) (offers s) (s_offers c)) then (2, None)
     else if negb (list_eqb Z.eqb (consumed s) (s_consumed c)) then (3, None)
-    else if negb (list_eqb Z.eqb [st s; inproc s; cstate s; b2z (intable s); nlocal s; nremote s;
+    else if negb (list_eqb Z.eqb [st s; inproc s; cstate s; b2z (intable s);
+                                  (* the callbacks are only observable when installed *)
+                                  (if cbset s then nlocal s else 0); (if cbset s then nremote s else 0);
                                   Z.of_nat (length (filter (fun e => match e with EClose => true | _ => false end) (out s)))]
                            (s_final c)) then (4, None)
     else if negb (list_eqb Z.eqb (recv s) (s_recv c) && list_eqb Z.eqb (concat (pending s)) (s_pend c)) then (5, None)
